@@ -148,15 +148,17 @@ def history(v1: int, v2: int, v3: int, fresh2: bool, fresh3: bool, bytecode: boo
 
 def _texts():
     out = []
+    atomic = False
     for v in range(NVAR):
         clean()
-        define(v)
+        cls, fail, env = check_definition(v)
+        atomic = atomic or ("replace" in env.trace) or ("rename" in env.trace)
         out.append(open(CACHE).read() if os.path.exists(CACHE) else None)
     clean()
-    return out
+    return out, atomic
 
 
-TEXT = _texts()
+TEXT, ATOMIC = _texts()      # ATOMIC: the code under test moves a finished file into place (os.replace) instead of writing in place
 
 
 def seeded(j: int, jp: int, v: int, bytecode: bool) -> str:
@@ -252,7 +254,7 @@ def crash(v1: int, v2: int, k: int, ci: int) -> str:
     \"\"\"the process defining declaration v1 dies right after file-system step k (a dying write leaves only its first
     CANDS[ci] bytes); then a fresh process defines declaration v2 on what is on disk\"\"\"
     v1, v2 = pick(v1, %(nv)d), pick(v2, %(nv)d)
-    k = pick(k, 16)
+    k = pick(k, 18)
     ci = pick(ci, len(CANDS))
     clean()
     died = False
@@ -283,11 +285,11 @@ def race(v1: int, v2: int, i1: int, a: int, i2: int, b: int) -> str:
     v2: `a` of the other's steps (remove byte-code, truncate, 4 writes, close) happen before our operation i1, `b` before i2,
     the rest after we finished\"\"\"
     v1, v2 = pick(v1, %(nv)d), pick(v2, %(nv)d)
-    i1 = pick(i1, 14)
-    a = pick(a, 8)
+    i1 = pick(i1, 16)
+    a = pick(a, 9)
     if %(twocuts)r:
-        i2 = i1 + pick(i2, 14 - i1)
-        b = a + pick(b, 8 - a)
+        i2 = i1 + pick(i2, 16 - i1)
+        b = a + pick(b, 9 - a)
     else:
         assume(i2 == 0 and b == 0)
         i2, b = i1, a
@@ -301,9 +303,9 @@ def race(v1: int, v2: int, i1: int, a: int, i2: int, b: int) -> str:
     t = TEXT[v2]
     cut = [0, len(t) // 4, len(t) // 2, 3 * len(t) // 4, len(t)]
     parts = [t[cut[n]:cut[n + 1]] for n in range(4)]
-    inter = cachefs.interferer_steps(CACHE, parts, os.path.join(PKTS, "__pycache__", MODNAME + ".cpython-311.pyc"))
-    progress = [0] * 14
-    for n in range(14):
+    inter = cachefs.interferer_steps(CACHE, parts, os.path.join(PKTS, "__pycache__", MODNAME + ".cpython-311.pyc"), ATOMIC)
+    progress = [0] * 16
+    for n in range(16):
         progress[n] = a if n >= i1 else 0
         if n >= i2:
             progress[n] = b
